@@ -241,6 +241,11 @@ func (db *DB) writeLocked(batch, ourBatch *Batch, merge, sync bool) error {
 
 	// Write journal.
 	if err := db.writeJournal(batches, seq, sync); err != nil {
+		// The record may have reached the journal although the write is
+		// reported as failed (e.g. the sync failed). Its sequence numbers
+		// must not be handed to a later write: recovery would reject that
+		// later, acknowledged, write as a duplicate.
+		db.addSeq(uint64(batchesLen(batches)))
 		verifEvent(7, seq, uint64(batchesLen(batches)), 1)
 		db.unlockWrite(overflow, merged, err)
 		return err
